@@ -171,15 +171,29 @@ impl<'a, R, C> Cache<super::Patches<'a, R>, C> {
     where
         G: crypto::signature::Signer<crypto::Signature>,
         R: ReadRepository + SignRepository + cob::Store<Namespace = NodeId>,
-        C: Remove<Patch>,
+        C: Remove<Patch> + Update<Patch>,
     {
         self.store.remove(id, signer)?;
-        self.cache
-            .remove(id)
-            .map_err(|e| super::Error::CacheRemove {
-                id: *id,
-                err: e.into(),
-            })?;
+        // Nb. Only our own reference to the object is removed. If other peers still
+        // reference it, the object continues to exist, and the cache must keep
+        // answering like the repository does.
+        match self.store.get(id)? {
+            Some(patch) => {
+                self.update(&self.rid(), id, &patch)
+                    .map_err(|e| super::Error::CacheUpdate {
+                        id: *id,
+                        err: e.into(),
+                    })?;
+            }
+            None => {
+                self.cache
+                    .remove(id)
+                    .map_err(|e| super::Error::CacheRemove {
+                        id: *id,
+                        err: e.into(),
+                    })?;
+            }
+        }
         Ok(())
     }
 
